@@ -8,19 +8,19 @@ HERE = os.path.dirname(os.path.dirname(os.path.abspath(__file__)))
 CLAIMED = {
  "C01": dict(level="exploration", ref="DESIGN.md §3 C01",
    technique="deterministic simulation: seeded two-endpoint sessions over an in-flight bag, random-source seam (SimRand), round-trip oracle",
-   text="Seeded simulation of two endpoints of one SA in opposite roles: every IV/padding outcome is drawn through the crypto/rand.Reader seam (plain, short reads, adversarial octets, repeated streams), messages span the whole encodable domain and all 9 suites x 2 directions x 2 header modes (stratified), transport reorders and duplicates; oracle: decoded spec == sent spec, nil-key path == plain codec. Exploration is the right level: the space (messages x keys x random outcomes) is unbounded and there is no finite fault set to enumerate.",
+   text="Seeded simulation of two endpoints of one SA in opposite roles: every IV/padding outcome is drawn through the crypto/rand.Reader seam (plain, short reads, adversarial octets, repeated streams), messages span the whole encodable domain and all 9 suites x 2 directions x 2 header modes (stratified), transport reorders and duplicates; message objects carry stale header bookkeeping; the random source sometimes fails and the sender retries on the same message object; the receiver pre-parses the header from the whole datagram, from its first 28 octets, or not at all; oracle: decoded spec == sent spec, nil-key path == plain codec. Exploration is the right level: the space (messages x keys x random outcomes) is unbounded and there is no finite fault set to enumerate.",
    note="Trusts the harness's spec builder/extractor (exported fields only) and that sampled messages represent the domain; a clean batch is evidence, not proof."),
  "C02": dict(level="fault_enumeration", ref="DESIGN.md §3 C02",
    technique="deterministic simulation with transport fault injection: exhaustive per-message bit-flip/prefix/SK-shrink/first-type enumeration plus seeded edits, splices, extensions, cross-key and reflected delivery; spy cipher/MAC objects",
-   text="The network between two simulated endpoints corrupts datagrams in flight. For each scenario's target message the fault set is enumerated completely (every single-bit flip, every proper prefix, SK body shrunk to every small size, every first-payload type) and further faults are sampled (format-aware extensions, edits, splices, IV/ICV/block swaps, cross-key, reflection). Oracles: no panic; reject whenever the independent chain walker says an Encrypted payload is presented; no key use on the plain path; spy in the public Encr_* fields never sees Decrypt for bytes that are not a genuine message for the receiver. Fault enumeration per message is the natural level: the single-fault space of one datagram is finite.",
+   text="The network between two simulated endpoints corrupts datagrams in flight. For each scenario's target message the fault set is enumerated completely (every single-bit flip, every proper prefix, SK body shrunk to every small size, every first-payload type) and further faults are sampled (format-aware extensions incl. mutated valid payloads of the announced type and SA tails with boundary length fields, edits, splices, IV/ICV/block swaps, cross-key, reflection, the same receive buffer presented twice, authentic-but-malformed SK bodies made by a key holder; half of the scenarios after the receiver already unprotected the genuine messages). Oracles: no panic; reject whenever the independent chain walker says an Encrypted payload is presented; no key use on the plain path; spy in the public Encr_* fields never sees Decrypt for bytes that are not a genuine message for the receiver. Fault enumeration per message is the natural level: the single-fault space of one datagram is finite.",
    note="Exhaustive per sampled message, sampled over messages/keys/suites. Genuine-set membership and 'presents SK' are decided by the harness's reference chain walker. HMAC collisions treated as never."),
  "C06": dict(level="exploration", ref="DESIGN.md §3 C06",
    technique="deterministic simulation of a heterogeneous deployment: real endpoint <-> independent reference peer, IV/padding via the random-source seam, refinement oracle in both directions",
-   text="Two-party simulation in which one party is the library and the other an independently written RFC 7296 §3.14 implementation holding the same raw keys. Direction A: whatever the library protects (all suites, both roles, SimRand-scripted IV/padding) must verify, decrypt and parse at the reference peer field by field. Direction B: reference-built datagrams with any IV, any legal pad length 0..255 and arbitrary pad octets must be accepted and decoded to the original list. Exploration: unbounded message/key space, seeded and stratified.",
+   text="Two-party simulation in which one party is the library and the other an independently written RFC 7296 §3.14 implementation holding the same raw keys. Direction A: whatever the library protects (all suites, both roles, SimRand-scripted IV/padding) must verify, decrypt and parse at the reference peer field by field. Direction B: reference-built datagrams with any IV, any legal pad length 0..255 and arbitrary pad octets must be accepted and decoded to the original list, also when the peer inserts unknown non-critical payloads (plain decoder as yardstick). Exploration: unbounded message/key space, seeded and stratified.",
    note="Trusts the reference peer (self-tested against RFC vectors). SA and EAP payload bodies use the library's plain codec as yardstick (that codec is C03/C05's subject)."),
  "C07": dict(level="exploration", ref="DESIGN.md §3 C07",
    technique="deterministic two-party simulation of the IKE_SA_INIT key agreement with simulator-chosen DH exponents (SimRand) against a reference KDF model",
-   text="Initiator and responder both run real library code (GenerateRandomNumber/GetPublicValue/GetSharedKey/GenerateKeyForIKESA vs NewIKESAKey on ToProposal- or Build*-made proposals), exponents drawn through the random-source seam, values handed over in memory; a second class feeds synthetic secrets of 1..512 octets. Oracle: both parties' SK_* equal each other and the reference prf+ slices with RFC lengths for all 54 algorithm combinations (stratified); every ready-made PRF/integrity/cipher object answers like the reference keyed with its slice; objects of the two parties interoperate pairwise.",
+   text="Initiator and responder both run real library code (GenerateRandomNumber/GetPublicValue/GetSharedKey/GenerateKeyForIKESA vs NewIKESAKey on ToProposal- or Build*-made proposals), exponents drawn through the random-source seam, values handed over in memory; a second class feeds synthetic secrets of 1..512 octets. Oracle: both parties' SK_* equal each other and the reference prf+ slices with RFC lengths for all 54 algorithm combinations (stratified); every ready-made PRF/integrity/cipher object answers like the reference keyed with its slice; objects of the two parties interoperate pairwise; SAs derived earlier are re-inspected after later derivations; a key object re-keyed a second time must hold exactly the new keys.",
    note="No schedule or clock dimension exists here; what simulation adds over a table test is the second party, scripted exponents and the reference model. Trusts the reference KDF (validated against the repository's pinned vector)."),
  "C08": dict(level="exploration", ref="DESIGN.md §3 C08",
    technique="deterministic simulation of operation histories on one long-lived IKE SA object, model-based check against reference prf+ and a fresh twin SA",
@@ -28,23 +28,23 @@ CLAIMED = {
    note="Sampled histories; the stateful Prf_d object is the only carrier of history, and every derivation is compared."),
  "C09": dict(level="fault_enumeration", ref="DESIGN.md §3 C09",
    technique="deterministic simulation with random-source fault injection enumerated over every read index; scripted exponents; Byzantine peer values; reference modexp over primes computed from pi",
-   text="For exponent generation and NewIKESAKey the random source fails at EVERY read index of a clean run in three failure modes, with short reads (1/7/64/255) so failures fall inside the draw; bursts force both rejection loops. Public values and shared secrets for boundary exponents and Byzantine peer values are compared with an independent modexp whose primes are computed from the RFC formula (pi by Machin), so a wrong digit in the library's constants cannot be self-consistent. Two-party agreement with generated exponents on both groups.",
+   text="For exponent generation and NewIKESAKey the random source fails at EVERY read index of a clean run in three failure modes, with short reads (1/7/64/255) so failures fall inside the draw; bursts force both rejection loops. Public values and shared secrets for boundary exponents and Byzantine peer values are compared with an independent modexp whose primes are computed from the RFC formula (pi by Machin), so a wrong digit in the library's constants cannot be self-consistent. Two-party agreement with generated exponents on both groups (either order of public/shared computation); callers reuse their exponent object; arguments must come back unchanged; exponents handed out earlier are re-read at the end of the run.",
    note="Fault positions are enumerated completely per sampled script; exponent/peer values are sampled plus fixed corner cases."),
  "C10": dict(level="fault_enumeration", ref="DESIGN.md §3 C10",
    technique="deterministic simulation of call histories on long-lived cipher objects with random-source failure at every read index; IV freshness observed at the random-source seam; reference AES-CBC",
-   text="Histories of up to 64 calls on 1..3 cipher objects mix Encrypt (every random-source script), Decrypt of own/other/reference-made ciphertext with any legal padding, malformed input, and Encrypt with the source failing at every read index (three modes, short reads so the failure lands inside padding or IV). Exhaustive sub-tables: NewCrypto for every key length 0..64 x 3 sizes; Decrypt for all lengths 0..96 x all 256 pad-length octets. Oracles: inverse, size law, textbook CBC, IV consumed from the source and never repeated across calls and objects, error-not-ciphertext on failure, error-not-panic on malformed input.",
+   text="Histories of up to 64 calls on 1..3 cipher objects mix Encrypt (every random-source script), Decrypt of own/other/reference-made ciphertext with any legal padding, malformed input, and Encrypt with the source failing at every read index (three modes, short reads so the failure lands inside padding or IV). Exhaustive sub-tables: NewCrypto for every key length 0..64 x 3 sizes; Decrypt for all lengths 0..96 x all 256 pad-length octets. Oracles: inverse, size law, textbook CBC, IV consumed from the source and never repeated across calls and objects, error-not-ciphertext on failure, error-not-panic on malformed input; callers reuse their key buffer for successive objects.",
    note="IV freshness is asserted only for non-repeating streams; which served octets become the IV is deliberately not asserted."),
  "C17": dict(level="exploration", ref="DESIGN.md §3 C17",
    technique="deterministic simulation of operation/fault histories on one long-lived IKESAKey, model-based comparison of every operation with a fresh twin, fault-free epilogue as bounded liveness",
-   text="The core history simulation: up to 64 (thorough 512) operations - protect as either role, unprotect genuine/tampered/truncated/garbage/cross-key/reflected, derive Child SA, protect with failing random source, one object serving both roles - on long-lived key objects; each operation is repeated on a fresh twin built from the same SK bytes and outcome classes are compared; every run ends with a fault-free epilogue that must succeed at once.",
+   text="The core history simulation: up to 64 (thorough 512) operations - protect as either role, unprotect genuine/tampered/truncated/garbage/cross-key/reflected, derive Child SA, protect with failing random source, authentic-but-malformed datagrams made by a key holder, failed protects retried on the same message, one object serving both roles - on long-lived key objects; each operation is repeated on a fresh twin built from the same SK bytes and outcome classes are compared; every run ends with a fault-free epilogue that must succeed at once.",
    note="Relative oracle: only differences from the fresh twin are flagged (a defect shared with the twin belongs to C01/C02)."),
  "C18": dict(level="exploration", ref="DESIGN.md §3 C18, §2.8",
    technique="deterministic simulation with a seeded baton scheduler over go/ast-inserted statement-level yield points (exactly replayable interleavings) plus seeded concurrent rounds on real cores under the Go race detector",
-   text="Up to 8 tasks (64 in parallel mode) with private SAs/messages run operation lists over the whole API surface. Serialized mode: explicit (task, quantum) schedules switch tasks at ~1700 yield points inserted before every library statement in a scratch copy of the working tree, at every random-source read and spy call; each task's full observable trace (incl. ciphertext digests; every task has its own random stream) must equal its solo trace. Parallel mode: seeded rounds decide which operations overlap on GOMAXPROCS 2/4/8/16 with -race; any race report, fatal runtime error or trace difference is a violation.",
+   text="Up to 8 tasks (64 in parallel mode) with private SAs/messages run operation lists over the whole API surface. Serialized mode: explicit (task, quantum) schedules switch tasks at ~1700 yield points inserted before every library statement in a scratch copy of the working tree, at every random-source read and spy call; each task's full observable trace (incl. ciphertext digests; every task has its own random stream; error values and generated exponents are read again when the task ends) must equal its solo trace; the overlapping run comes before the solo runs so lazily initialised state is cold; some tasks hold distinct key objects with identical key material; several tasks unprotect one shared (possibly forged) datagram in place and the input slice must stay unwritten. Parallel mode: seeded rounds decide which operations overlap on GOMAXPROCS 2/4/8/16 with -race; any race report, fatal runtime error or trace difference is a violation.",
    note="Serialized interleavings are exactly replayable and shrinkable; inside a parallel round the instruction-level interleaving is the machine's, so a race finding replays 'k of 5 runs'. Function literals are not instrumented."),
  "C20": dict(level="exploration", ref="DESIGN.md §3 C20",
    technique="deterministic simulation of the receive-buffer life cycle (one reused arena, scribbles, queued decoded messages) and of retransmission re-encoding; self-consistency oracle over snapshots",
-   text="A receive loop that reuses one buffer while decoded messages are still queued (hold 0..8 events), with complement/random/zero scribbles and exact/spare-capacity slices; held IKE_SA_INIT-like messages feed a key derivation after the buffer was reused. Send side re-encodes 2..8 times and scribbles returned buffers. Oracles compare snapshots of the same message over time (never with the sent spec), original payload objects before/after EncodeEncrypt, and repeated encodings byte for byte.",
+   text="A receive loop that reuses one buffer while decoded messages are still queued (hold 0..8 events), with complement/random/zero scribbles and exact/spare-capacity slices; held IKE_SA_INIT-like messages feed a key derivation after the buffer was reused. Send side re-encodes 2..8 times and scribbles returned buffers. Decoded messages are re-encoded (purity, determinism across buffer reuse), buffers returned by the public container encoder are held across later encodings, plain datagrams no encoder of ours produces (flipped reserved bits, unknown EAP-AKA' attribute types) are decoded too, proposals share one transform container. Oracles compare snapshots of the same message over time (never with the sent spec), original payload objects before/after EncodeEncrypt, and repeated encodings byte for byte.",
    note="Go's randomised map iteration (EAP-AKA' attributes) has no seam; repeat-encoding samples it and can never raise a false alarm."),
 }
 
